@@ -392,7 +392,33 @@ func releasedBeforeWait(p *Prog, pkg string, info *types.Info, fd *ast.FuncDecl,
 		if !ok {
 			return true
 		}
-		_, found := f.reach(Point{pt.B, pt.I + 1}, &searchOpts{AvoidNode: func(n ast.Node) bool { return loop.Cond != nil && n == ast.Node(loop.Cond) }}, func(q Point, atExit bool) bool {
+		// the predicate is tested again by the loop condition itself or by another branch on the same
+		// relation (or its negation) - `if len != 0 { break }` after the lock was taken again
+		var loopRel, loopNeg Rel
+		haveRel := false
+		if loop.Cond != nil {
+			if rl, ok := relOf(loop.Cond); ok {
+				loopRel, loopNeg, haveRel = rl, negRel(rl), true
+			}
+		}
+		retest := func(n ast.Node) bool {
+			if loop.Cond == nil {
+				return false
+			}
+			if n == ast.Node(loop.Cond) {
+				return true
+			}
+			if e, isExpr := n.(ast.Expr); isExpr && haveRel {
+				if rl, ok := relOf(e); ok && (rl == loopRel || rl == loopNeg) {
+					return true
+				}
+			}
+			return false
+		}
+		_, found := f.reach(Point{pt.B, pt.I + 1}, &searchOpts{AvoidNode: func(n ast.Node) bool {
+			// only whole condition nodes of the graph count (not sub-expressions of other statements)
+			return retest(n)
+		}}, func(q Point, atExit bool) bool {
 			if atExit {
 				return false
 			}
